@@ -200,6 +200,7 @@ def configloader_init(self, schema):
         raise ZConfig.SchemaError("cannot check an abstract type")
     BaseLoader.__init__(self)
     self.schema = schema
+    self._base_schema = schema
     self._private_schema = False
     self._open_urls = []
 
